@@ -107,11 +107,22 @@ func (session *ServerCommandSession) FeedSdp(b []byte) {
 //
 // 使用RTSP TCP命令连接，向对端发送RTP数据
 func (session *ServerCommandSession) WriteInterleavedPacket(packet []byte, channel int) error {
+	b := packInterleaved(channel, packet)
 	if session.isWebSocket {
-		respLen := len(packInterleaved(channel, packet))
-		session.writeWsFrameHeader(respLen)
+		// The write queue of the connection is bounded and drops what it cannot take, one element at a
+		// time (see base.BasicHttpSubSession.Write): the frame header and the interleaved packet have to
+		// be one element, or one of them can be dropped alone and the peer loses the frame boundaries.
+		h := base.MakeWsFrameHeader(base.WsHeader{
+			Fin:           true,
+			Opcode:        base.Wso_Binary,
+			PayloadLength: uint64(len(b)),
+		})
+		frame := make([]byte, len(h)+len(b))
+		copy(frame, h)
+		copy(frame[len(h):], b)
+		b = frame
 	}
-	_, err := session.conn.Write(packInterleaved(channel, packet))
+	_, err := session.conn.Write(b)
 	return err
 }
 
